@@ -160,9 +160,12 @@ CLAIMS: dict[str, tuple[str, str, str, str]] = {
         "the forced hypothesis that text tokens have nesting 0), joinToks_flat + joinOne_image_children + "
         "joinOpt_flat (after text_join no text_special survives and no two text tokens are adjacent, recursively in "
         "image descriptions), tree_of_balanced (a balanced stream always builds a SyntaxTreeNode; with "
-        "C15.tree_roundtrip it flattens back). MISSING: that delimiter matching is laminar (em/strong/s pairs never "
-        "cross) — processDelimiters is not modelled; and that every block/inline rule pushes balanced segments "
-        "(rule contracts). Both are decided by the oracle: the property's predicate on every stream, recursively, "
+        "C15.tree_roundtrip it flattens back); loop_segs (engine: the tokens a block loop adds are a concatenation "
+        "of rule segments at the loop's level, under the segment contract K5) with K5 PROVED for code, fence, hr, "
+        "heading, paragraph (Props/C02b.lean), giving the unconditional mini_wellformed for that sub-parser (levelled "
+        "from 0, balanced, tree builds; model tied by `miniblock`). MISSING: that delimiter matching is laminar "
+        "(em/strong/s pairs never cross) — processDelimiters is not modelled; and K5 for the remaining block/inline "
+        "rules (monitored). Both are decided by the oracle: the property's predicate on every stream, recursively, "
         "incl. a bounded-exhaustive delimiter sweep. Known finding K-C02-1 (parseInline wrapper not flagged block, "
         "pinned by a test).",
         NOTE,
